@@ -213,12 +213,13 @@ def classify(case, site, new_tokens, old_status):
 def observe(case, text_only=False):
     """Runs rope and the oracle.  Returns a dict with everything the Coq case and the verdict need."""
     modules = L.build_modules(case)
+    info = {}
     if text_only:
         new, err = run_text_level(case)
     else:
-        new, err = L.run_rope(case, modules)
+        new, err = L.run_rope(case, modules, info=info)
     ob = {"modules": modules, "new": new, "err": err, "tokens": None, "rendered": [], "site_status": {},
-          "case_fail": None, "parse_fail": None}
+          "case_fail": None, "parse_fail": None, "recompute_differs": bool(info.get("recompute_differs"))}
     if new is None:
         return ob
     if text_only:
@@ -337,6 +338,34 @@ def vararg_fixed():
     return _PROBE["fixed"]
 
 
+def utf8_ranges_ok():
+    """Does the call parser cut argument texts correctly when the line contains non-ASCII characters
+    (ast column offsets are UTF-8 byte offsets)?  True on the current code (fixed by 737992b: non-ASCII literals are
+    ordinary modelled input); run() reports a VIOLATION when this is False again."""
+    if "utf8" not in _PROBE:
+        from rope.refactor import functionutils
+        try:
+            _PROBE["utf8"] = functionutils._FunctionCallParser('f("\u00e9", 2)', False).get_parameters() == (['"\u00e9"', "2"], [])
+        except Exception:
+            _PROBE["utf8"] = False
+    return _PROBE["utf8"]
+
+
+def kwstar_ok():
+    """Does the call parser accept a call containing **mapping?  True on the current code (fixed by 091d633, model variant
+    kwfix = true); run() reports a VIOLATION when it raises AssertionError again."""
+    if "kwstar" not in _PROBE:
+        from rope.refactor import functionutils
+        try:
+            functionutils._FunctionCallParser("f(1, **k)", False).get_parameters()
+            _PROBE["kwstar"] = True
+        except AssertionError:
+            _PROBE["kwstar"] = False
+        except Exception:
+            _PROBE["kwstar"] = False
+    return _PROBE["kwstar"]
+
+
 def remover_deletes():
     """Which variant of ArgumentRemover.change_argument_mapping is rope running: does it delete the argument
     of the removed parameter from the mapping (True: proposed fix applied) or never (False: the code as found)?"""
@@ -368,8 +397,8 @@ def g_ecase(I, case, ob):
             g_callee(s), g_bool(s["implicit"]), g_bool(s["ctor"]), g_rend(I, L.site_rendered(s)), g_list(stars)))
     newdef = None if (ob["new"] is None or ob["tokens"] is None) else g_ptokens(I, ob["tokens"])
     calls = [] if ob["new"] is None else [g_rend(I, r) for r in ob["rendered"]]
-    return "{| e_init := %s; e_rdel := %s; e_fixed := %s; e_ast := %s; e_cs := %s; e_sites := %s; e_newdef := %s; e_newcalls := %s |}" % (
-        g_bool(case["kind"] == "init"), g_bool(True), g_bool(True), g_ast(I, case), g_list([g_changer(I, c) for c in case["changers"]]),
+    return "{| e_kwfix := %s; e_init := %s; e_rdel := %s; e_fixed := %s; e_ast := %s; e_cs := %s; e_sites := %s; e_newdef := %s; e_newcalls := %s |}" % (
+        g_bool(True), g_bool(case["kind"] == "init"), g_bool(True), g_bool(True), g_ast(I, case), g_list([g_changer(I, c) for c in case["changers"]]),
         g_list(sites), g_opt(newdef), g_list(calls))
 
 
@@ -426,7 +455,12 @@ def case_verdict(case, ob):
     """(failed?, class, detail) for the whole case: the first failing site, or the case-level failure attributed
     to the site classes."""
     if ob["new"] is None:
+        if ob["err"] == "AssertionError":
+            # an assert that fires is a crash, not a refusal
+            return True, None, "get_changes raised AssertionError (a failing assert, not a refusal)"
         return False, None, ""
+    if ob.get("recompute_differs"):
+        return True, None, RECOMPUTE
     if ob["parse_fail"]:
         classes = [classify(case, s, ob["tokens"], ob["site_status"].get(s["k"], ("ok",))[0]) for s in case["sites"]]
         out = [c for c in classes if c not in (None, "star-call-identity")]
@@ -448,9 +482,17 @@ def case_verdict(case, ob):
     return False, None, ""
 
 
+RECOMPUTE = ("computing the changes a second time on the untouched project (after a discarded preview) gives a different "
+             "change set than the first time")
+
+
 def failure_kind(detail):
     """how the failure shows: part of the signature, so that a known shape failing in a NEW way is a VIOLATION"""
     d = detail or ""
+    if d == RECOMPUTE:
+        return "recompute"
+    if "raised AssertionError" in d:
+        return "crash"
     if "not a call expression" in d or "not splittable" in d or "does not compile" in d or "not found" in d:
         return "syntax"
     if "callee expression" in d:
@@ -497,7 +539,7 @@ def check_e2e(ctx, cases, stream="e2e", text_only=False):
     for s0 in range(0, len(cases), shard):
         terms = [g_ecase(I, c, o) for c, o in zip(cases[s0:s0 + shard], obs[s0:s0 + shard])]
         bodies.append(HEADER + "Definition cases : list ecase := %s.\nEval vm_compute in (emismatches cases).\n"
-                      "Eval vm_compute in (edomain cases).\n" % g_list(terms).replace("; {| e_init", ";\n {| e_init"))
+                      "Eval vm_compute in (edomain cases).\n" % g_list(terms).replace("; {| e_kwfix", ";\n {| e_kwfix"))
     outs = ctx.coq_files_parallel(bodies) if bodies else []
     mism, domain = {}, []
     for si, out in enumerate(outs):
@@ -694,8 +736,10 @@ INTRO_USER_ERROR = ("introduce-name-collision", "call-invalid", "introduce-name-
 
 def observe_introduce(case):
     modules = L.build_modules(case)
-    new, err = L.run_introduce(case, modules)
-    ob = {"modules": modules, "new": new, "err": err, "tokens": None, "site_status": {}, "case_fail": None}
+    info = {}
+    new, err = L.run_introduce(case, modules, info=info)
+    ob = {"modules": modules, "new": new, "err": err, "tokens": None, "site_status": {}, "case_fail": None,
+          "recompute_differs": bool(info.get("recompute_differs"))}
     if new is None:
         return ob
     line = L.extract_def_line(case, new["m.py"])
@@ -749,6 +793,8 @@ def observe_introduce(case):
 def intro_verdict(case, ob):
     if ob["new"] is None:
         return False, None, ""
+    if ob.get("recompute_differs"):
+        return True, None, RECOMPUTE
     classes = {s["k"]: classify_intro(case, s, ob["site_status"].get(s["k"], ("ok",))[0]) for s in case["sites"]}
     for s in case["sites"]:
         st = ob["site_status"].get(s["k"])
@@ -777,11 +823,11 @@ def check_introduce(ctx, cases):
             sites.append("{| s_callee := CTarget; s_implicit := %s; s_ctor := %s; s_call := %s; s_stars := [] |}" % (
                 g_bool(s["implicit"]), g_bool(s["ctor"]), g_rend(I, L.site_rendered(s))))
         newdef = None if (ob["new"] is None or ob["tokens"] is None) else g_ptokens(I, ob["tokens"])
-        terms.append("{| i_fixed := %s; i_ast := %s; i_p := %s; i_e := %s; i_sites := %s; i_newdef := %s |}" % (
+        terms.append("{| i_kwfix := true; i_fixed := %s; i_ast := %s; i_p := %s; i_e := %s; i_sites := %s; i_newdef := %s |}" % (
             g_bool(True), g_ast(I, case), gN(I, case["introduce"]["name"]), gN(I, case["introduce"]["expr"]),
             g_list(sites), g_opt(newdef)))
     body = HEADER + "Definition cases : list icase := %s.\nEval vm_compute in (imismatches cases).\nEval vm_compute in (idomain cases).\n" % (
-        g_list(terms).replace("; {| i_fixed", ";\n {| i_fixed"))
+        g_list(terms).replace("; {| i_kwfix", ";\n {| i_kwfix"))
     blocks = coq_blocks(ctx.coq_file(body))
     mism = {blocks[0][k]: blocks[0][k + 1] for k in range(0, len(blocks[0]) - 1, 2)}
     domain, cur = [], []
@@ -983,9 +1029,12 @@ def run(ctx):
                 "passes an argument; distinct by structure. text/unit: same without a project, also ill-formed definitions and calls. "
                 "beyond: keyword-only parameters, nested calls, subclass constructors, starred argument not last. intro: IntroduceParameter "
                 "on generated functions/methods with 1-3 call sites.")
-    ctx.extra["rope_variant"] = {"defparser_vararg_fix_applied": vararg_fixed(), "remover_deletes_argument": remover_deletes()}
+    ctx.extra["rope_variant"] = {"defparser_vararg_fix_applied": vararg_fixed(), "remover_deletes_argument": remover_deletes(),
+                                 "source_ranges_utf8_ok": utf8_ranges_ok(), "double_star_call_parses": kwstar_ok()}
     import os
-    for ok, what, fn in ((vararg_fixed(), "_FunctionDefParser.get_parameters attaches the defaults to *args again (e1c84b5 reverted?)", "vararg-with-defaults.json"),
+    for ok, what, fn in ((utf8_ranges_ok(), "the call/definition parser cuts argument texts at UTF-8 byte offsets again (737992b reverted?)", "non-ascii-argument-syntax.json"),
+                         (kwstar_ok(), "a call passing **mapping trips `assert kw.arg` again (091d633 reverted?)", "kwstar-call.json"),
+                         (vararg_fixed(), "_FunctionDefParser.get_parameters attaches the defaults to *args again (e1c84b5 reverted?)", "vararg-with-defaults.json"),
                          (remover_deletes(), "ArgumentRemover.change_argument_mapping no longer deletes the removed parameter's argument (26a80fc reverted?)", "readd-removed-name.json")):
         if not ok:
             obj = json.load(open(os.path.join(os.path.dirname(os.path.dirname(os.path.abspath(__file__))), "corpus", "C06", fn)))
@@ -994,6 +1043,9 @@ def run(ctx):
     cases = [norm_case(c) for c in FIXED_CASES]
     for i in range(n_e2e):
         cases.append(norm_case(L.gen_case(ctx.rng, wild=(i % 7 == 0))))
+    for c in cases[len(FIXED_CASES):]:
+        if ctx.rng.random() < 0.12:
+            L.sprinkle_nonascii(ctx.rng, c)          # ordinary modelled input since 737992b
     obs = check_e2e(ctx, cases, "e2e")
     for c, o in list(zip(cases, obs))[3:6]:
         if o["new"] is not None:
@@ -1049,7 +1101,7 @@ def _model_disagrees(ctx, kind, obj):
         sites = ["{| s_callee := CTarget; s_implicit := %s; s_ctor := %s; s_call := %s; s_stars := [] |}" % (
             g_bool(s["implicit"]), g_bool(s["ctor"]), g_rend(I, L.site_rendered(s))) for s in case["sites"]]
         newdef = None if (ob["new"] is None or ob["tokens"] is None) else g_ptokens(I, ob["tokens"])
-        term = "{| i_fixed := %s; i_ast := %s; i_p := %s; i_e := %s; i_sites := %s; i_newdef := %s |}" % (
+        term = "{| i_kwfix := true; i_fixed := %s; i_ast := %s; i_p := %s; i_e := %s; i_sites := %s; i_newdef := %s |}" % (
             g_bool(True), g_ast(I, case), gN(I, case["introduce"]["name"]), gN(I, case["introduce"]["expr"]),
             g_list(sites), g_opt(newdef))
         out = ctx.coq_file(HEADER + "Definition cases : list icase := [%s].\nEval vm_compute in (imismatches cases).\n" % term)
